@@ -107,6 +107,8 @@ def check_property(prop, tier='quick', seed=0, write_lock=False, only=None):
     else:
         results = [_worker((u.uid, tier)) for u in order]
     by_uid = {r['uid']: r for r in results}
+    if os.environ.get('RVC_TRACE'):
+        print(f'[driver] units done at {time.time()-t0:.1f}s', file=sys.stderr)
     lock = load_lock()
     locked = set(lock.get(prop, []))
     violations = []      # (obligation, replay path, found_input)
@@ -149,6 +151,8 @@ def check_property(prop, tier='quick', seed=0, write_lock=False, only=None):
             # real code finished where the symbolic path raised: tolerance-edge effects are possible; record
             xmismatch.append(f"{u.uid} path {cv['taken']}: symbolic raised {so}, CPython ok")
 
+    if os.environ.get('RVC_TRACE'):
+        print(f'[driver] cross-check done at {time.time()-t0:.1f}s', file=sys.stderr)
     # ---- obligations
     for u in sym_units:
         r = by_uid[u.uid]
@@ -162,7 +166,10 @@ def check_property(prop, tier='quick', seed=0, write_lock=False, only=None):
                     obligations=0, discharged=0, discharged_by={}, solver_s=round(r.get('solver_s', 0.0), 2),
                     explore_s=round(r.get('explore_s', 0.0), 2), notes=r.get('notes', [])[:6])
         if r['status'] in ('unsupported', 'engine-error', 'vacuous'):
-            engine_fail.append(f"{u.uid}: {r['status']}: {r['notes'][:2]}")
+            if u.opts.get('optional') and not any(o.startswith(u.uid + '::') for o in locked):
+                not_covered.append(dict(obligation=u.uid, note=f"unit out of reach: {r['status']}: {str(r['notes'][:1])[:200]}"))
+            else:
+                engine_fail.append(f"{u.uid}: {r['status']}: {r['notes'][:2]}")
         for oname, o in r['obligations'].items():
             oid = f"{u.uid}::{oname}"
             full = o['instances'] > 0 and o['proved'] == o['instances']
@@ -261,6 +268,8 @@ def check_property(prop, tier='quick', seed=0, write_lock=False, only=None):
                 break
         conc_report.append(dict(unit=u.uid, points=len(pts), failed=bad, label='concrete'))
 
+    if os.environ.get('RVC_TRACE'):
+        print(f'[driver] obligations done at {time.time()-t0:.1f}s', file=sys.stderr)
     # ---- known findings
     kf_lines = []
     for f in findings.for_property(prop):
